@@ -54,6 +54,16 @@ func short(s string, n int) string {
 	return s
 }
 
+// ConstString returns the value of a string constant declared in package rel.
+func (c C) ConstString(rel, name string) string {
+	o := c.P.Obj(rel, name)
+	k, ok := o.(*types.Const)
+	if !ok || k.Val().Kind() != constant.String {
+		panic(ir.Unresolved{What: "string const " + rel + "." + name})
+	}
+	return constant.StringVal(k.Val())
+}
+
 // ConstInt returns the value of an integer constant declared in package rel.
 func (c C) ConstInt(rel, name string) int64 {
 	o := c.P.Obj(rel, name)
